@@ -196,6 +196,9 @@ def build_response(rng, ident, head_method=False, close_delimited_ok=False):
     framing = "none"
     if status in (204, 304) or head_method:
         framing = "none"
+        if head_method and rng.random() < 0.5:
+            # the answer to HEAD announces the length the entity would have (whatever the status): there is still no body on the wire
+            hdrs.append((b"Content-Length", b"%d" % rng.randint(1, 60)))
     else:
         body = rand_body(rng)
         r = rng.random()
